@@ -174,11 +174,10 @@ def size_sub(size):
 
 def run_impl(env, mode, d, size):
     """Run the real front-end; returns ('REJECT' | [(op, sorted kwargs)] | 'EXC:<type>', client)."""
-    from harness.fakes3 import FakeS3
+    from harness.fakes3 import FakeS3, NonSeekableReader, NonSeekableWriter
     from s3transfer.manager import TransferManager, TransferConfig
     from s3transfer.futures import NonThreadedExecutor
     import s3transfer
-    from s3transfer import processpool
     data = bytes(range(65, 65 + size))
     k = mode[0]
     extra = dict(d)
@@ -188,12 +187,22 @@ def run_impl(env, mode, d, size):
             cfg = TransferConfig(multipart_threshold=THRESHOLD, multipart_chunksize=CHUNK, io_chunksize=3)
             with TransferManager(client, cfg, executor_cls=NonThreadedExecutor) as m:
                 try:
+                    variant = (len(d) + size) % 3      # source / destination kind: all go through the same _submit
                     if k == 'tmup':
-                        fut = m.upload(io.BytesIO(data), 'b', 'k', extra_args=extra)
+                        if variant == 0:
+                            src_obj = io.BytesIO(data)
+                        elif variant == 1:
+                            src_obj = env.path('src')
+                            with open(src_obj, 'wb') as f:
+                                f.write(data)
+                        else:
+                            src_obj = NonSeekableReader(data)
+                        fut = m.upload(src_obj, 'b', 'k', extra_args=extra)
                     elif k == 'tmdl':
                         client.objects[('b', 'k')] = data
                         subs = [size_sub(size)] if mode[1] else None
-                        fut = m.download('b', 'k', io.BytesIO(), extra_args=extra, subscribers=subs)
+                        dst = io.BytesIO() if variant == 0 else (env.path('dst') if variant == 1 else NonSeekableWriter())
+                        fut = m.download('b', 'k', dst, extra_args=extra, subscribers=subs)
                     elif k == 'tmcp':
                         client.objects[('sb', 'sk')] = data
                         src = {'Bucket': 'sb', 'Key': 'sk'}
@@ -464,7 +473,7 @@ def gen_cases(ctx):
                     cases.append(('pairs', mode, {x: fresh(), y: fresh()}, size_for(mode)))
     # C. random subsets
     rng = ctx.rng('subsets')
-    per_mode = 60 if ctx.thorough() else 8
+    per_mode = 200 if ctx.thorough() else 8
     for mode in modes:
         al = allowed_of(mode)
         for j in range(per_mode):
